@@ -3,12 +3,16 @@
 
   Proved here: what the writer emits for each kind of value and when it quotes (after D10/D11/
   D23), that what it comments out is exactly what the reader cannot or need not read, and the
-  read-back of one written line under explicit hypotheses on the white-space trimmer
-  (`_partial`: the general `unquote (quote s) = s` law and the trimmer lemmas are not yet proved;
-  the full round trip over generated declarations and rich values is exercised on every run by
-  the harness: write, read into a fresh parser, compare every option).
+  read-back of one written line: `string_value_round_trip` — for EVERY byte string and every
+  admissible key the written line reads back as that key and that value, using
+  `Unquote (Quote s) = s` (Lemmas/Quote.lean) and the `TrimSpace` lemmas (Lemmas/Trim.lean); the
+  only assumption is on the IsPrint oracle (no white-space character beyond U+00FF is printable),
+  which the harness checks against Go on every run.  The round trip over whole generated
+  declarations (all kinds, slices, maps, groups, commands) is exercised on every run by the
+  harness: write, read into a fresh parser, compare every option.
 -/
 import GoFlags.Ini
+import GoFlags.Lemmas.Trim
 
 namespace GoFlags.C12
 open GoFlags Bytes
@@ -126,5 +130,184 @@ theorem plain_line_reads_back_partial (file : Bytes) (f : IniFile) (cur name val
         split
         · next h => simp at h; exact absurd h.1 hv0
         · rfl
+
+/-! ### The full round trip of one string value -/
+
+/-- `strings.TrimSpace` leaves a string alone when both of its ends do -/
+theorem trimSpace_fix (s : Bytes) (h1 : trimLeft s = s) (h2 : trimRight s = s) : trimSpace s = s := by
+  unfold trimSpace; rw [h1, h2]
+
+/-- a key as it can stand in an INI file: not empty, nothing to trim at either end, no `=`, and not
+    starting a comment or a section -/
+structure IniKeyOK (name : Bytes) : Prop where
+  ne : name ≠ []
+  left : trimLeft name = name
+  right : trimRight name = name
+  noEq : 0x3D ∉ name
+  first : ∀ c r, name = c :: r → c ≠ 0x3B ∧ c ≠ 0x23 ∧ c ≠ 0x5B
+
+theorem cut_eq_key (name rest : Bytes) (h : 0x3D ∉ name) : cut 0x3D (name ++ 0x3D :: rest) = (name, some rest) := by
+  induction name with
+  | nil => simp [cut]
+  | cons a t ih =>
+    have ha : a ≠ 0x3D := by intro e; apply h; simp [e]
+    have ht : 0x3D ∉ t := by intro e; apply h; simp [e]
+    simp only [List.cons_append, cut, ha, if_false, ih ht]
+
+/-- the line `key = X` (X not empty, ending in a byte that is no white space) is read as the pair
+    (key, trimmed X) -/
+theorem readIniLine_key_value (file : Bytes) (f : IniFile) (cur name X : Bytes) (n : Nat) (hk : IniKeyOK name)
+    (hX : trimLeft X = X) (hXr : trimRight (name ++ B " = " ++ X) = name ++ B " = " ++ X) (hXr' : trimRight X = X)
+    (hXne : X ≠ []) :
+    readIniLine file (f, cur) n (name ++ B " = " ++ X) =
+      if X.head? = some 0x22 then
+        match unquote X with
+        | some u => .ok (iniAddEntry f cur ⟨name, u, true, n⟩, cur)
+        | none => .error (.ini file n (B "invalid syntax"))
+      else .ok (iniAddEntry f cur ⟨name, X, false, n⟩, cur) := by
+  have hline : trimSpace (name ++ B " = " ++ X) = name ++ B " = " ++ X := by
+    apply trimSpace_fix _ _ hXr
+    have : name ++ B " = " ++ X = name ++ 0x20 :: (B "= " ++ X) := by simp
+    rw [this]
+    exact trimLeft_fix_append name 0x20 _ hk.ne hk.left (by decide)
+  have hcut : cut 0x3D (name ++ B " = " ++ X) = (name ++ [0x20], some (0x20 :: X)) := by
+    have : name ++ B " = " ++ X = (name ++ [0x20]) ++ 0x3D :: (0x20 :: X) := by simp
+    rw [this]
+    apply cut_eq_key
+    intro hm
+    rcases List.mem_append.mp hm with h | h
+    · exact hk.noEq h
+    · simp at h
+  have hkey : trimSpace (name ++ [0x20]) = name := by
+    unfold trimSpace
+    have : trimLeft (name ++ [0x20]) = name ++ [0x20] := trimLeft_fix_append name 0x20 [] hk.ne hk.left (by decide)
+    rw [this, trimRight_space, hk.right]
+  have hval : trimSpace (0x20 :: X) = X := by
+    unfold trimSpace
+    rw [trimLeft_space, hX, hXr']
+  unfold readIniLine
+  simp only [hline]
+  obtain ⟨c, r, hnm⟩ := List.exists_cons_of_ne_nil hk.ne
+  obtain ⟨h1, h2, h3⟩ := hk.first c r hnm
+  have hhead : name ++ B " = " ++ X = c :: (r ++ B " = " ++ X) := by rw [hnm]; simp
+  rw [hhead]
+  split
+  · next h => simp at h
+  · next h => simp at h; first | exact absurd h h1 | exact absurd h.1 h1
+  · next h => simp at h; first | exact absurd h h2 | exact absurd h.1 h2
+  · next h => simp at h; first | exact absurd h h3 | exact absurd h.1 h3
+  · rw [← hhead, hcut]
+    simp only [hkey, hval, hk.ne, if_false]
+    cases X with
+    | nil => exact absurd rfl hXne
+    | cons x0 xr =>
+      by_cases hq : x0 = 0x22
+      · subst hq; simp only [List.head?_cons, if_true]; rfl
+      · have : ¬ (x0 :: xr).head? = some 0x22 := by simp [hq]
+        simp only [this, if_false]
+        split
+        · next h => simp at h; first | exact absurd h hq | exact absurd h.1 hq
+        · rfl
+
+theorem quote_shape (E : Env) (s : Bytes) : ∃ body, quote E s = 0x22 :: (body ++ [0x22]) := ⟨quoteBody E s, rfl⟩
+
+/-- **Write / read round trip of one string value.**  For every byte string `value` (any bytes:
+    control characters, quotes, blanks at the ends, invalid UTF-8, non-ASCII, empty) and every
+    admissible key, the line the writer emits for `key = value` — quoted when the value needs it or
+    when the option was read quoted before, verbatim otherwise — is read back as exactly that key
+    and that value. -/
+theorem string_value_round_trip (E : Env) (hE : E.spacesNotPrintable) (file : Bytes) (f : IniFile) (cur name value : Bytes)
+    (n : Nat) (force : Bool) (hk : IniKeyOK name) (hb : ∀ b ∈ value, b < 256) :
+    ∃ q, readIniLine file (f, cur) n (writeOption E name true [] value false force).dropLast =
+      .ok (iniAddEntry f cur ⟨name, value, q, n⟩, cur) := by
+  unfold writeOption
+  simp only [Bool.true_and, List.nil_append, List.head?_nil, Bool.false_eq_true, if_false, ne_eq, not_true_eq_false]
+  by_cases hq : (force || iniNeedsQuote E value) = true
+  · -- quoted
+    simp only [hq, if_true]
+    obtain ⟨body, hbody⟩ := quote_shape E value
+    have hne : quote E value ≠ [] := by rw [hbody]; simp
+    simp only [hne, not_false_eq_true, if_true]
+    have hline : (name ++ B " =" ++ (B " " ++ quote E value) ++ [0x0A]).dropLast = name ++ B " = " ++ quote E value := by
+      rw [List.dropLast_concat]; simp
+    rw [hline]
+    have hX : trimLeft (quote E value) = quote E value := by
+      rw [hbody]; exact trimLeft_ascii_nonspace _ _ (by decide) (by decide)
+    have hXr' : trimRight (quote E value) = quote E value := by
+      rw [hbody, show 0x22 :: (body ++ [0x22]) = (0x22 :: body) ++ [0x22] from rfl]
+      exact trimRight_ascii_nonspace _ _ (by decide) (by decide)
+    have hXr : trimRight (name ++ B " = " ++ quote E value) = name ++ B " = " ++ quote E value := by
+      rw [hbody, show name ++ B " = " ++ 0x22 :: (body ++ [0x22]) = (name ++ B " = " ++ 0x22 :: body) ++ [0x22] by simp]
+      exact trimRight_ascii_nonspace _ _ (by decide) (by decide)
+    rw [readIniLine_key_value file f cur name (quote E value) n hk hX hXr hXr' hne]
+    have hh : (quote E value).head? = some 0x22 := by rw [hbody]; rfl
+    simp only [hh, if_true, unquote_quote E value hb]
+    exact ⟨true, rfl⟩
+  · -- verbatim
+    simp only [hq, Bool.false_eq_true, if_false]
+    simp only [Bool.or_eq_true, not_or, Bool.not_eq_true] at hq
+    obtain ⟨_, hnq⟩ := hq
+    unfold iniNeedsQuote at hnq
+    simp only [Bool.or_eq_false_iff, Bool.not_eq_false', decide_eq_false_iff_not] at hnq
+    obtain ⟨⟨⟨hprint, hh20⟩, hl20⟩, hh22⟩ := hnq
+    by_cases hv : value = []
+    · -- `key =`
+      subst hv
+      simp only [not_true_eq_false, if_false, List.append_nil]
+      have hline : (name ++ B " =" ++ [0x0A]).dropLast = name ++ B " =" := by rw [List.dropLast_concat]
+      rw [hline]
+      have htrim : trimSpace (name ++ B " =") = name ++ B " =" := by
+        apply trimSpace_fix
+        · have : name ++ B " =" = name ++ 0x20 :: [0x3D] := by simp
+          rw [this]; exact trimLeft_fix_append name 0x20 _ hk.ne hk.left (by decide)
+        · have : name ++ B " =" = (name ++ [0x20]) ++ [0x3D] := by simp
+          rw [this]; exact trimRight_ascii_nonspace _ _ (by decide) (by decide)
+      have hcut : cut 0x3D (name ++ B " =") = (name ++ [0x20], some []) := by
+        have : name ++ B " =" = (name ++ [0x20]) ++ 0x3D :: [] := by simp
+        rw [this]
+        apply cut_eq_key
+        intro hm
+        rcases List.mem_append.mp hm with h | h
+        · exact hk.noEq h
+        · simp at h
+      have hkey : trimSpace (name ++ [0x20]) = name := by
+        unfold trimSpace
+        have : trimLeft (name ++ [0x20]) = name ++ [0x20] := trimLeft_fix_append name 0x20 [] hk.ne hk.left (by decide)
+        rw [this, trimRight_space, hk.right]
+      unfold readIniLine
+      simp only [htrim]
+      obtain ⟨c, r, hnm⟩ := List.exists_cons_of_ne_nil hk.ne
+      obtain ⟨h1, h2, h3⟩ := hk.first c r hnm
+      have hhead : name ++ B " =" = c :: (r ++ B " =") := by rw [hnm]; simp
+      rw [hhead]
+      split
+      · next h => simp at h
+      · next h => simp at h; first | exact absurd h h1 | exact absurd h.1 h1
+      · next h => simp at h; first | exact absurd h h2 | exact absurd h.1 h2
+      · next h => simp at h; first | exact absurd h h3 | exact absurd h.1 h3
+      · rw [← hhead, hcut]
+        have he : trimSpace [] = [] := by simp [trimSpace, trimLeft_nil, trimRight_nil]
+        simp only [hkey, he, hk.ne, if_false]
+        exact ⟨false, rfl⟩
+    · simp only [hv, not_false_eq_true, if_true]
+      have hline : (name ++ B " =" ++ (B " " ++ value) ++ [0x0A]).dropLast = name ++ B " = " ++ value := by
+        rw [List.dropLast_concat]; simp
+      rw [hline]
+      have hX := trimLeft_printable E hE value hprint hh20
+      have hXr' := trimRight_printable E hE value hprint hl20
+      have hXr : trimRight (name ++ B " = " ++ value) = name ++ B " = " ++ value := by
+        have := trimRight_printable_after E hE (name ++ B " = ") value (Or.inr ⟨name ++ B " =", by simp⟩) hprint hv hl20
+        simpa using this
+      rw [readIniLine_key_value file f cur name value n hk hX hXr hXr' hv]
+      simp only [hh22, if_false]
+      exact ⟨false, rfl⟩
+
+/-! Non-vacuity: an admissible key, and an oracle that meets the assumption. -/
+example : IniKeyOK (B "Key") :=
+  ⟨by decide, trimLeft_ascii_nonspace _ _ (by decide) (by decide),
+   trimRight_ascii_nonspace (B "Ke") 0x79 (by decide) (by decide), by decide,
+   by intro c r h; cases h; decide⟩
+
+example : ({ (default : Env) with isPrintHi := fun _ => false } : Env).spacesNotPrintable := fun _ _ _ => rfl
 
 end GoFlags.C12
